@@ -221,4 +221,48 @@ Section Mice.
   Definition decode_all (d : draft) (stream digest : bytes) (maxrs k : N) : R (bytes * rstat) :=
     let* s := new_decoder d stream digest maxrs in
     Ok (read_all (S (S (List.length stream))) s k []).
+
+  (* ---- a source that FAILS after delivering [stream] (an I/O error that is not
+     io.EOF).  binary.Read / io.ReadFull then return that error instead of
+     EOF / ErrUnexpectedEOF: NewDecoder fails on a short header, readNextRecord
+     returns the error (mice.go: "if err != nil { return err }") instead of
+     treating the bytes it got as the final record. ---- *)
+  Definition new_decoder_f (d : draft) (stream digest : bytes) (maxrs : N) : R dec :=
+    let* top := parse_digest_header d digest in
+    match splitN stream 8 with
+    | None => Err
+    | Some _ => new_decoder d stream digest maxrs
+    end.
+
+  Definition read_next_record_f (s : dec) (proof : bytes) : dec * rstat :=
+    match splitN (d_r s) (d_rs s + 32) with
+    | Some _ => read_next_record s proof
+    | None => ({| d_enc := d_enc s; d_rs := d_rs s; d_r := [];
+                  d_next := d_next s; d_out := d_out s |}, RErr)
+    end.
+
+  Definition read_f (s : dec) (k : N) : dec * bytes * rstat :=
+    match d_out s, d_next s with
+    | [], Some proof =>
+        match splitN (d_r s) (d_rs s + 32) with
+        | Some _ => read s k
+        | None => (fst (read_next_record_f s proof), [], RErr)
+        end
+    | _, _ => read s k
+    end.
+
+  Fixpoint read_trace_f (fuel : nat) (s : dec) (cur all : list N) (acc : bytes) : bytes * rstat :=
+    match fuel with
+    | O => (acc, ROk)
+    | S f =>
+        match cur with
+        | [] => match all with [] => (acc, ROk) | _ => read_trace_f f s all all acc end
+        | k :: t =>
+            let '(s', out, st) := read_f s k in
+            match st with
+            | ROk => read_trace_f f s' t all (acc ++ out)
+            | _ => (acc ++ out, st)
+            end
+        end
+    end.
 End Mice.
